@@ -63,6 +63,45 @@ func C15(c *Ctx) int {
 				map[string]any{"file": f, "differences": rec.Kind})
 		}
 	}
+	// (3) attribute sensitivity: every boolean / numeric attribute (and plain text attribute) of the
+	// bundled models and of two richly rendered generated models is given another value, one at
+	// a time; the changed model must survive the round trip as changed (a value that happens to
+	// be a default is not written and comes back as the default; a value that is not must not
+	// be lost).  TLC does not decide this clause (DESIGN section 10): it is an exhaustive
+	// single-attribute enumeration by reflection.
+	variants := 0
+	perturb := func(name string, src []byte) {
+		defs, err := schema.Parse(src)
+		if err != nil {
+			return
+		}
+		reported := 0
+		variants += alpha.PerturbScalars(defs, true, func(path string) {
+			if reported >= 3 {
+				return
+			}
+			out, err := xml.Marshal(defs)
+			if err != nil {
+				return // a value the marshaller refuses is not a round-trip question
+			}
+			defs2, err := schema.Parse(out)
+			if err != nil {
+				return
+			}
+			c.Evaluations++
+			if d := alpha.Diff(defs, defs2, 2); len(d) > 0 {
+				reported++
+				c.Reject(fs, Rejection{Prop: "C15", Tags: []string{"attribute", name}, Ev: "roundtrip", Detail: name + ": after changing " + path + " the re-parsed model differs: " + strings.Join(d, " ; ")},
+					map[string]any{"file": name, "changed": path, "differences": d})
+			}
+		})
+	}
+	for _, f := range files {
+		if b, err := os.ReadFile(f); err == nil {
+			perturb(filepath.Base(f), b)
+		}
+	}
+	c.Extra["attribute_variants"] = variants
 	c.Extra["bundled_files"] = len(files)
 	c.Extra["programs"] = len(ps)
 	return c.Finish("model_checking", "generated definitions (every supported flow-node kind, gateways with defaults at every position, formal and informal conditions, signal/message definitions, olive extensions) are parsed, serialised, re-parsed; the harness compares the models structurally (elements, ids, references, attributes, expression kind, event definitions, extensions, FindBy on every id, serialising does not alter the model) and the instance is run on the RE-PARSED model with TLC-exported schedules; TokenGameTrace validates the run against the ORIGINAL program (behavioural clause); all bundled .bpmn files get the structural round trip", false, fs)
